@@ -1,7 +1,7 @@
 (* C11 - Brutal sends at the configured rate: bounded above, never stalled.
    Property theorems only; every proof is `exact <lemma>` from proof/C11_*.v.
    Units: nanoseconds and bytes; two63 = 2^63, two64 = 2^64; mds_limit = 2^32. *)
-From Hy Require Import model.C11_Pacer model.C11_Brutal proof.C11_Pacer proof.C11_Brutal.
+From Hy Require Import lib.F64 model.C11_Pacer model.C11_Brutal proof.C11_Pacer proof.C11_Brutal proof.C11_Float.
 From Coq Require Import ZArith List.
 Import ListNotations.
 Local Open Scope Z_scope.
@@ -40,7 +40,7 @@ Print Assumptions C11_rearm_progress.
    in which every bandwidth value used lies in [0, B], every datagram size in [0, M], times are
    positive and non-decreasing, each packet is sent only when the budget covers it and
    rate x gap < 2^63:   bytes <= max_burst(B, M) + B * (t_last - t_first) / 10^9.
-   With B = floor(1.25 * rate) (C11_bandwidth_bound_partial) this is "burst + rate/0.8 x interval". *)
+   With B = floor(1.25 * rate) (C11_bandwidth_bound) this is "burst + rate/0.8 x interval". *)
 Theorem C11_rate_upper_bound : forall B M,
   maxBurstPacingDelayMultiplier * MinPacingDelay_ns * B < two63 -> M <= mds_limit ->
   forall p s l,
@@ -96,22 +96,35 @@ Theorem C11_ack_rate_range : forall bps dis l,
 Proof. exact ack_rate_q_full. Qed.
 Print Assumptions C11_ack_rate_range.
 
-(* "rate/0.8": the pacer's bandwidth is trunc(bps / ackRate).  PARTIAL: stated for the exact rate
-   n/d in [0.8, 1] (C11_ack_rate_range) over exact arithmetic: bps <= floor(bps*d/n) <= floor(1.25*bps).
-   The full statement is about the binary64 computation the code performs,
-     forall bps r, 0 <= bps < 2^50 -> fleb min_ack_rate r = true -> fleb r f_one = true ->
-       bps <= bandwidth_of bps r <= 5 * bps / 4,
-   and additionally needs: float64(bps) exact below 2^53, division correctly rounded and monotone,
-   0.8f > 0.8 and 1.25*bps representable (a Flocq argument, not done).  The rounding step is covered
-   only by the bit-exact correspondence runs (every Budget/TimeUntilSend value of the real code equals
-   the model's, whose bandwidth is computed with binary64 arithmetic), by the harness's own
-   rate-conformance verdict with B = floor(1.25*bps), and by the kernel-evaluated grid
-   proof/C11_Brutal.v:bandwidth_bound_grid. *)
-Theorem C11_bandwidth_bound_partial : forall bps n d,
+(* "rate/0.8", on the binary64 computation the code performs (Flocq): for every configured rate
+   below 2^50 B/s (9 Pbit/s) and every float64 ack rate r with 0.8f <= r <= 1, the bandwidth handed
+   to the pacer, int64(float64(bps)/r), lies in [bps, floor(1.25*bps)].  So B = floor(1.25*bps) in
+   C11_rate_upper_bound: "a bounded burst plus rate/0.8 times the interval". *)
+Theorem C11_bandwidth_bound : forall bps r,
+  0 <= bps < 2 ^ 50 -> fleb min_ack_rate r = true -> fleb r f_one = true ->
+  bps <= bandwidth_of bps r <= 5 * bps / 4.
+Proof. exact bandwidth_bound_f64. Qed.
+Print Assumptions C11_bandwidth_bound.
+
+(* "the loss-compensation factor always lies in [0.8, 1]" for the float64 the sender stores, and the
+   resulting bandwidth, after ANY call history (as in C11_ack_rate_value) of a sender configured
+   with a rate below 2^50 B/s: 0.8f <= ackRate <= 1, ackRate = 1 when compensation is disabled,
+   rate <= bandwidth <= floor(1.25*rate). *)
+Theorem C11_sender_bandwidth_bound : forall bps dis l,
+  0 <= bps < 2 ^ 50 -> hist_ok 0 0 l ->
+  let b := brun (brutal_init bps dis) l in
+  fleb min_ack_rate (b_rate b) = true /\ fleb (b_rate b) f_one = true /\
+  (dis = true -> b_rate b = f_one) /\
+  bps <= bandwidth b <= 5 * bps / 4.
+Proof. exact sender_bandwidth_bound. Qed.
+Print Assumptions C11_sender_bandwidth_bound.
+
+(* the same bound in exact arithmetic, for the exact rate n/d in [0.8, 1] of C11_ack_rate_range *)
+Theorem C11_bandwidth_bound_exact : forall bps n d,
   0 <= bps -> 0 < d -> 4 * d <= 5 * n -> n <= d ->
   bps <= bps * d / n <= 5 * bps / 4.
 Proof. exact bandwidth_bound_q. Qed.
-Print Assumptions C11_bandwidth_bound_partial.
+Print Assumptions C11_bandwidth_bound_exact.
 
 (* Parts 1 and 2 fit together: after ANY call history the sender's pacer is exactly the pacer-level
    state reached by the induced send history (each OnPacketSent with the bandwidth
